@@ -222,6 +222,9 @@ def r3_shape(ctx, F):
     # overflow test first
     ov = [c for c in live_calls(b) if c.name == "checked_add"]
     ok = len(ov) == 1 and all(b.dominates(ov[0].bb, u) for u in b.reachable() if b.term(u)[0] == "switch" and u != ov[0].bb and "opcode" in vf.render(v.operand(b.term(u)[1], u, len(b.stmts(u))), b, short=True))
+    if ok:
+        a_ = sorted(vf.render(x, b, short=True) for x in v.call_args(ov[0]))
+        ok = a_ == ["offset", "size"]
     ctx.check("R3-check-shape", "overflow-first", ok, "seal_size_check no longer rejects offset+size overflow before anything else", loc=b.loc())
     # arms: enumerate (opcode, op) -> result by walking the decision paths to each return-value assignment
     results = {}
@@ -236,10 +239,12 @@ def r3_shape(ctx, F):
                             key.append("opcode=%s" % lab)
                         elif t.startswith("BitAnd(") and "mode" in t:
                             key.append("op=%s" % lab)
-                        elif t.startswith("Lt(") and ", Add(" in t and lab != 0:
+                        elif t in ("Lt(file_size, Add(offset, size))", "Lt(file_size, Add(size, offset))") and lab != 0:
                             key.append("beyond")
-                        elif t.startswith("Le(Add(") and lab != 0:
+                        elif t in ("Le(Add(offset, size), file_size)", "Le(Add(size, offset), file_size)") and lab != 0:
                             key.append("within")
+                        elif (t.startswith("Lt(") or t.startswith("Le(")) and lab != 0:
+                            key.append("compares:" + t[:60])      # some other size comparison: not the sealing test
                     results.setdefault(tuple(key), set()).add(val)
     opv = {v_["name"]: v_["discr"] for v_ in F.enums["abi::fuse_abi::Opcode"]["variants"]}
     W, FA = opv["Write"], opv["Fallocate"]
